@@ -438,7 +438,145 @@ class Plugin:
                     sites.append({"file": f, "line": n.lineno, "what": ast.unparse(p)[:70], "kind": "id-dict", "class": "SExposed", "why": "the id-keyed dict itself is iterated / passed on"})
         return sites
 
+    # ---- a listing that is materialised into a local before it is deleted
+    COPIES = ("list", "tuple", "sorted")
+
+    @staticmethod
+    def copy_of(e):
+        """the call list(e) / tuple(e) / sorted(e) (one argument, no keywords) that e is the argument of, or None"""
+        p = getattr(e, "_parent", None)
+        if isinstance(p, ast.Call) and isinstance(p.func, ast.Name) and p.func.id in Plugin.COPIES and len(p.args) == 1 and p.args[0] is e \
+                and not p.keywords and not isinstance(e, ast.Starred):
+            return p
+        return None
+
+    def snapshot_delete(self, n):
+        """n = a directory-listing call.  -> (assignment, loop) when the code has the shape
+
+                v = list(<listing>)            # or tuple(..) / sorted(..), possibly nested; the ONLY binding of the local v
+                <statements without calls other than len(v) and logging calls>
+                for x in v: x.unlink()         # the only read of v besides len(v); body = deleters of the item and nothing else
+                                               # (also `[x.unlink() for x in v]`, and v wrapped once more in list/tuple/sorted/iter/reversed)
+
+        with both statements in the SAME statement list of the same function, else None.
+
+        Soundness (why this is the same SDeleteOnly / cleanup as `for x in <listing>: x.unlink()`):
+        (1) ORDER.  list/tuple/sorted return a sequence L whose elements are exactly the items the listing yields (a permutation of
+            them for sorted).  v is a local that is bound exactly once (no other Store/Del of the name, not a parameter, no
+            global/nonlocal, no nested scope or lambda mentions it), so every read of v sees L.  The reads are len(v) — a function of
+            the multiset — and ONE loop that applies a deleter to each element and does nothing else with it: the directory after
+            the loop is Emit.delete_all L f, which is the same for every permutation of L (Emit.glob_delete_invariant).  No name of
+            L flows anywhere else (the loop variable is used only as the receiver / first argument of the deleter), so neither the
+            order nor the names reach the output.
+        (2) CLEANUP.  The direct loop deletes what <dir>.glob(PAT) lists while it runs; here L is listed completely BEFORE the first
+            deletion, in the state f of the directory at the assignment.  Between the assignment and the loop only statements
+            without calls (other than len(v) / logging) are executed, in the same statement list, so the loop starts in the same
+            state f and is reached exactly when the assignment was executed: L = the names matching PAT that exist in f, and
+            Emit.snapshot_delete_is_cleanup gives delete_all L f = remove_owned owned f — the cleanup step of Emit.run.  (The
+            snapshot is the more faithful instance of the abstract step: deleting while a lazy scan is in progress is what the
+            direct loop leaves to the implementation of Path.glob.)
+        Anything outside this shape (v re-bound, read elsewhere, passed on, returned, captured; a call between listing and loop) is
+        not recognised and the site stays SExposed (fail-closed)."""
+        e = n
+        while self.copy_of(e) is not None:
+            e = self.copy_of(e)
+        if e is n:
+            return None                                     # not materialised (a lazy iterator bound to a name is not handled)
+        st = getattr(e, "_parent", None)
+        if not (isinstance(st, (ast.Assign, ast.AnnAssign)) and st.value is e):
+            return None
+        tgs = st.targets if isinstance(st, ast.Assign) else [st.target]
+        if len(tgs) != 1 or not isinstance(tgs[0], ast.Name):
+            return None
+        v = tgs[0].id
+        fn = getattr(st, "_parent", None)
+        while fn is not None and not isinstance(fn, (ast.FunctionDef, ast.AsyncFunctionDef, ast.ClassDef, ast.Lambda, ast.Module)):
+            fn = getattr(fn, "_parent", None)
+        if not isinstance(fn, (ast.FunctionDef, ast.AsyncFunctionDef)):
+            return None                                     # module / class level: not a local
+        a = fn.args
+        own_params = a.posonlyargs + a.args + a.kwonlyargs + [x for x in (a.vararg, a.kwarg) if x is not None]
+        loads = []
+        for x in ast.walk(fn):
+            if isinstance(x, ast.Name) and x.id == v:
+                if isinstance(x.ctx, ast.Load):
+                    loads.append(x)
+                elif x is not tgs[0]:
+                    return None                             # bound / deleted a second time (assignment, loop target, with, walrus, del)
+            elif isinstance(x, (ast.Global, ast.Nonlocal)) and v in x.names:
+                return None
+            elif isinstance(x, ast.arg) and x.arg == v:
+                return None                                 # a parameter of fn or of a nested function / lambda
+            elif isinstance(x, ast.alias) and (x.asname or x.name.split(".")[0]) == v:
+                return None
+            elif isinstance(x, ast.ExceptHandler) and x.name == v:
+                return None
+            elif isinstance(x, (ast.FunctionDef, ast.AsyncFunctionDef, ast.ClassDef)) and x is not fn and x.name == v:
+                return None
+            elif type(x).__name__.startswith("Match") and (getattr(x, "name", None) == v or getattr(x, "rest", None) == v):
+                return None
+        loop = None
+        for x in loads:
+            q_ = x._parent
+            while q_ is not fn:                             # every read stands in fn's own body, not in a nested scope
+                if isinstance(q_, (ast.FunctionDef, ast.AsyncFunctionDef, ast.ClassDef, ast.Lambda)):
+                    return None
+                q_ = q_._parent
+            p = x._parent
+            if isinstance(p, ast.Call) and isinstance(p.func, ast.Name) and p.func.id == "len" and len(p.args) == 1 and p.args[0] is x and not p.keywords:
+                continue
+            y = x
+            w = self.copy_of(y)
+            if w is None and isinstance(p, ast.Call) and isinstance(p.func, ast.Name) and p.func.id in ("iter", "reversed") and len(p.args) == 1 \
+                    and p.args[0] is x and not p.keywords:
+                w = p
+            if w is not None:
+                y = w
+            p = y._parent
+            this = None
+            if isinstance(p, ast.For) and p.iter is y and self.loop_only_deletes(p):
+                this = p
+            elif isinstance(p, ast.comprehension) and p.iter is y and isinstance(p.target, ast.Name) and not p.ifs and not p.is_async:
+                comp = p._parent
+                elt = getattr(comp, "elt", None)
+                if isinstance(comp, ast.ListComp) and len(comp.generators) == 1 and isinstance(getattr(comp, "_parent", None), ast.Expr) \
+                        and isinstance(elt, ast.Call) and isinstance(elt.func, ast.Attribute) and elt.func.attr in DELETERS \
+                        and (dotted(elt.func.value) == p.target.id or (elt.args and dotted(elt.args[0]) == p.target.id)):
+                    this = comp._parent                     # the expression statement `[x.unlink() for x in v]`
+            if this is None or loop is not None:
+                return None                                 # read in another way, or iterated twice
+            loop = this
+        if loop is None:
+            return None
+        # same statement list, the loop after the assignment, nothing with a call in between (except len(v) / logging)
+        block = None
+        for field in ("body", "orelse", "finalbody"):
+            lst = getattr(st._parent, field, None)
+            if isinstance(lst, list) and any(s is st for s in lst):
+                block = lst
+        if block is None or not any(s is loop for s in block):
+            return None
+        i, j = next(k for k, s in enumerate(block) if s is st), next(k for k, s in enumerate(block) if s is loop)
+        if j <= i:
+            return None
+        for s in block[i + 1:j]:
+            if not isinstance(s, (ast.Expr, ast.Pass)):
+                return None
+            for c in ast.walk(s):
+                if isinstance(c, (ast.Await, ast.Yield, ast.YieldFrom, ast.NamedExpr, ast.Lambda)):
+                    return None
+                if isinstance(c, ast.Call):
+                    is_len = isinstance(c.func, ast.Name) and c.func.id == "len"
+                    is_log = isinstance(c.func, ast.Attribute) and c.func.attr in LOGGERS and (dotted(c.func.value) or "").lower().endswith(("logger", "logging", "log"))
+                    if not (is_len or is_log):
+                        return None
+        return st, loop
+
     def listing(self, n):
+        snap = self.snapshot_delete(n)
+        if snap is not None:
+            return ("SDeleteOnly", "listing copied into the local %s at line %d (its only binding), which is only iterated by the loop at line %d that "
+                                   "only deletes the listed files" % (snap[0].targets[0].id if isinstance(snap[0], ast.Assign) else snap[0].target.id, snap[0].lineno, snap[1].lineno))
         p = n._parent
         if isinstance(p, ast.Call) and isinstance(p.func, ast.Name) and p.func.id in ("list", "tuple", "iter") and len(p.args) == 1 \
                 and isinstance(getattr(p, "_parent", None), (ast.For, ast.comprehension)) and p._parent.iter is p:
@@ -701,16 +839,51 @@ class Plugin:
     def cleanup_loops(self, g):
         """[(node, [patterns])]: loops / comprehensions directly in g that only delete what <dir>.glob(PAT) lists"""
         res = []
+
+        def path_glob(it):
+            """<path expression>.glob(PAT) / .rglob(PAT) with a constant pattern: a method of a path OBJECT, which takes the directory
+            literally and matches PAT against the names in it.  `glob.glob(..)` / `glob.iglob(..)` of the glob MODULE (or any other
+            imported name as receiver) is not that: its whole argument is a pattern, directory part included, so a directory whose
+            name contains [ ] * ? is not listed — not a cleanup of the output directory"""
+            if not (isinstance(it, ast.Call) and isinstance(it.func, ast.Attribute) and it.func.attr in ("glob", "rglob")
+                    and len(it.args) == 1 and not it.keywords and isinstance(it.args[0], ast.Constant) and isinstance(it.args[0].value, str)):
+                return False
+            root = (dotted(it.func.value) or "").split(".")[0]
+            return root not in self.imported_names(it)
+
         for n in own_walk(g):
             if isinstance(n, (ast.For, ast.comprehension)):
                 it = n.iter
                 while isinstance(it, ast.Call) and isinstance(it.func, ast.Name) and it.func.id in ("sorted", "list", "tuple", "iter") and it.args:
                     it = it.args[0]
-                if isinstance(it, ast.Call) and isinstance(it.func, ast.Attribute) and it.func.attr in ("glob", "rglob") \
-                        and it.args and isinstance(it.args[0], ast.Constant) and isinstance(it.args[0].value, str):
+                if path_glob(it):
                     if self.listing(it)[0] == "SDeleteOnly":
                         res.append((n if isinstance(n, ast.For) else n._parent, [it.args[0].value]))
+            elif isinstance(n, (ast.Assign, ast.AnnAssign)) and n.value is not None:
+                # v = list(<dir>.glob(PAT)); for x in v: x.unlink()   — see snapshot_delete; the cleanup happens at the loop
+                it = n.value
+                while isinstance(it, ast.Call) and isinstance(it.func, ast.Name) and it.func.id in self.COPIES and len(it.args) == 1 and not it.keywords:
+                    it = it.args[0]
+                if it is not n.value and path_glob(it):
+                    snap = self.snapshot_delete(it)
+                    if snap is not None and snap[0] is n:
+                        res.append((snap[1], [it.args[0].value]))
         return res
+
+    def imported_names(self, node):
+        """names bound by import statements anywhere in the module that contains node"""
+        m = node
+        while getattr(m, "_parent", None) is not None:
+            m = m._parent
+        cached = getattr(m, "_imported", None)
+        if cached is None:
+            cached = set()
+            for x in ast.walk(m):
+                if isinstance(x, (ast.Import, ast.ImportFrom)):
+                    for al in x.names:
+                        cached.add(al.asname or al.name.split(".")[0])
+            m._imported = cached
+        return cached
 
     @staticmethod
     def unconditional(node, g):
